@@ -211,7 +211,8 @@ def restricted_simple_types(ctx):
         doc = ('<e:Envelope xmlns:e="%s"><e:Body><fResponse xmlns="%s"><%s>%s</%s></fResponse></e:Body></e:Envelope>'
                % (xmlread.ENV11, wsdlkit.TNS, name, lex, name)).encode()
         got = getattr(rep.service.f(__inject={"reply": doc}), name, None)
-        if type(got) is not type(back) or got != back:
+        ok = (isinstance(got, str) and str(got) == back) if base == "string" else (type(got) is type(back) and got == back)
+        if not ok:
             ctx.fail("a reply text of a restricted simple type is not decoded to the base type's value", meta, repr(got),
                      repr(back), untranslated=(isinstance(got, str) and str(got) == lex))
 
